@@ -98,6 +98,8 @@ def wrap(formula, kind, tag):
     body = formula[1:]
     if kind == 'nosuch':
         return f'=NOSUCH({body})'
+    if kind == 'nosuch-constant':
+        return f'=TAU({body})'             # no such function, but python's math module has a constant of that name
     if kind == 'nosuch-keyword':
         return f'=LAMBDA({body})'          # an unknown function whose name python cannot even parse as a call
     if kind == 'failname':
@@ -316,10 +318,17 @@ def one_case(ctx, plan, mode, first, case_extra=None):
     const_f, const_g = ((3, 4), (0, 4), (0.0, 0), (7, 0))[h64((plan['F'], kind, mode, first, len(plan['related']))) % 4]
     ctx.count(f'repair_constant:{const_f!r}')
     targets = plan['f_cells'] + ([plan['G']] if plan['G'] else [])
+    same_value = []
     for a in targets:
         if a not in comp.cell_map:
             r = call(comp.evaluate, a)       # bring it into the model the documented way
-        r = call(comp.set_value, a, const_g if a == plan['G'] else const_f)
+        shown = getattr(comp.cell_map.get(a), 'value', None)
+        c_ = const_g if a == plan['G'] else const_f
+        if shown is not None and shown == c_ and isinstance(shown, bool) == isinstance(c_, bool):
+            # the cell already shows this value (after a one-shot fault): pycel takes the write for no change and
+            # keeps the formula (known finding; the test-suite uses exactly that to seed a cycle)
+            same_value.append(a)
+        r = call(comp.set_value, a, c_)
         if r[0] != 'v':
             bad('repair-set_value-raises', f'set_value({a!r}, constant) raised {r[1]}')
             return
@@ -344,6 +353,37 @@ def one_case(ctx, plan, mode, first, case_extra=None):
                 f'after overwriting {targets} with constants evaluate({a!r}) = {got!r} ({which}); a fresh '
                 f'model of the repaired workbook gives {want!r}')
             return
+    # follow-up: a new value for an input that the overwritten cell's former formula read; the constant stays
+    if plan['pos'] != 'cse':
+        feeding = sorted(a for f in plan['f_cells'] for a in wbgen.influencers(meta, f)
+                         if a in meta['inputs'] and not a.startswith(wbgen.SD + '!') and a in comp.cell_map)
+        if feeding:
+            p = feeding[h64((F, kind)) % len(feeding)]
+            new_value = 12.5 if wb.norm(wb.spec_cells(faulty).get(p)) != wb.norm(12.5) else 7
+            for m in (comp, fresh):
+                if p not in m.cell_map:
+                    call(m.evaluate, p)
+                call(m.set_value, p, new_value)
+            ctx.count('writes_to_a_precedent_of_the_overwritten_cell')
+            for a in everything + [probe]:
+                if a in plan['related2'] or (plan['probe2'] and a == plan['probe2']):
+                    continue
+                got, want = call(comp.evaluate, a), call(fresh.evaluate, a)
+                ctx.count('repair_compares')
+                if got[0] != want[0] or (got[0] == 'v' and not wb.same(got[1], want[1], rel=1e-6)):
+                    if same_value:
+                        case['suspects'] = log
+                        ctx.violation(SAME_VALUE_KEY,
+                                      f'{same_value} already showed the constant written over it (after a one-shot '
+                                      f'fault); pycel took the write for no change and kept the formula: after writing '
+                                      f'{new_value!r} to {p} evaluate({a!r}) = {got!r}, a fresh model of the repaired '
+                                      f'workbook gives {want!r} [{key_base}]', case)
+                        return
+                    bad('after-repair-differs/after-a-write-to-a-former-precedent',
+                        f'after overwriting {targets} with constants and writing {new_value!r} to {p} (which the '
+                        f'overwritten formula read) evaluate({a!r}) = {got!r}; a fresh model of the repaired workbook '
+                        f'with the same input gives {want!r}')
+                    return
     ctx.count('h2_events', H2['events'] - ev0)
     if log:
         ctx.count('suspects_recorded', len(log))
@@ -353,6 +393,32 @@ def one_case(ctx, plan, mode, first, case_extra=None):
         ctx.sample({'cells': faulty['sheets'], 'arrays': faulty['arrays'], 'failing': F, 'second': plan['G'],
                     'kind': kind, 'mode': mode, 'first_touch': first, 'position': plan['pos'],
                     'transient_state_notes': log[:3]})
+
+
+SAME_VALUE_KEY = 'overwritten-with-the-value-it-already-showed/formula-kept'
+
+
+def same_value_case(ctx):
+    """directed: a cell that failed once shows 2 on the retry and is then overwritten with the constant 2"""
+    for mode in ('plain', 'iterative'):
+        spec = {'sheets': [['Sheet1', {'A1': 1, 'B1': '=FAILK("f",1,A1*2)', 'C1': '=B1+1'}]], 'names': {},
+                'arrays': [], 'calc': {'iterate': True, 'count': 100, 'delta': 1e-9} if mode == 'iterative' else None}
+        plugins.reset()
+        comp = wb.compile_mem(spec, plugins='vp.plugins')
+        first = call(comp.evaluate, 'Sheet1!C1')
+        retry = call(comp.evaluate, 'Sheet1!B1')
+        call(comp.set_value, 'Sheet1!B1', 2)
+        call(comp.set_value, 'Sheet1!A1', 5)
+        got = call(comp.evaluate, 'Sheet1!C1')
+        ctx.count('directed:same_value_case')
+        ctx.case(('same-value', mode))
+        if first[0] != 'pycel' or retry != ('v', 2):
+            ctx.violation('directed-same-value-case-did-not-fail-once', f'{mode}: first {first!r}, retry {retry!r}',
+                          {'kind': 'same-value', 'mode': mode})
+        elif got != ('v', 3):
+            ctx.violation(SAME_VALUE_KEY, f'{mode}: B1 = FAILK(once, A1*2) fails, shows 2 on the retry and is '
+                          f'overwritten with 2; after set_value(A1, 5) C1 = B1+1 gives {got!r}, a workbook with the '
+                          f'constant 2 in B1 gives 3', {'kind': 'same-value', 'mode': mode})
 
 
 def trim_after_failure(ctx, plan, case, key_base):
@@ -520,9 +586,10 @@ def _unbounded_one(ctx, mode, kind, single):
 
 def run(ctx):
     rng = ctx.rng
-    kinds = ['nosuch', 'failk-always', 'failk-once', 'nosuch-keyword', 'failname']
+    kinds = ['nosuch', 'failk-always', 'failk-once', 'nosuch-keyword', 'failname', 'nosuch-constant']
     if ctx.shard == 0:
         unbounded_case(ctx)
+        same_value_case(ctx)
     # faults injected into the workbooks shipped with the repository
     realbooks.run_cases(ctx, realbooks.c09_case, realbooks.acyclic_books(), 10 if ctx.quick else 100, fraction=0.25)
     i = 0
@@ -545,6 +612,9 @@ def run(ctx):
 
 
 def replay(ctx, case):
+    if case.get('kind') == 'same-value':
+        same_value_case(ctx)
+        return
     if case.get('kind') == 'real-book':
         realbooks.c09_case(ctx, case['book'], case['case_seed'])
         return
